@@ -41,6 +41,7 @@ const (
 	behOK = iota
 	behErr
 	behBlock
+	behPanic
 )
 
 type obs struct {
@@ -149,6 +150,8 @@ func (s *sim) behaviour(o *obs, serial int) int {
 		return behErr
 	case 1, 2:
 		return behBlock
+	case 3:
+		return behPanic
 	}
 	return behOK
 }
@@ -167,6 +170,8 @@ func (s *sim) onupdate(o *obs) func(rel.Value) error {
 		switch s.behaviour(o, serialOf(v)) {
 		case behErr:
 			return fmt.Errorf("observer %d disconnects", o.idx)
+		case behPanic:
+			panic(fmt.Sprintf("observer %d: frontend cannot encode the value", o.idx))
 		case behBlock:
 			s.mu.Lock()
 			s.nblk++
@@ -310,6 +315,10 @@ func (s *sim) install(v rel.Value, serial int) {
 			o.dead, o.deadCause = true, "callback-error"
 			s.lastCause = "callback-error"
 			s.c.Fault("observer-callback-error")
+		case behPanic:
+			o.dead, o.deadCause = true, "callback-panic"
+			s.lastCause = "callback-panic"
+			s.c.Fault("observer-callback-panic")
 		case behBlock:
 			s.c.Fault("observer-callback-blocks")
 		}
@@ -337,7 +346,7 @@ func (s *sim) release() bool {
 	return true
 }
 
-var updateKinds = []string{"(v: %d, x: %d)", "(v: %d)", "$ +> (v: %d)", "$ +> (v: %d, x: %d)", "$.zzz", "(v: %d, w: $.zzz)", "(v: %d, x: %d)"}
+var updateKinds = []string{"(v: %d, x: %d)", "(v: %d)", "$ +> (v: %d)", "$ +> (v: %d, x: %d)", "$.zzz", "(v: %d, w: $.zzz)", "(v: %d, x: %d)", "$", "same"}
 var observeKinds = []string{"$", "$.v", "$.x", "42", "$.zzz", "($.v) + 1000", "$"}
 
 func (s *sim) step(i int) {
@@ -356,8 +365,20 @@ func (s *sim) step(i int) {
 	switch {
 	case k < 5:
 		kind := updateKinds[t.Draw(len(updateKinds))]
-		s.nextSer++
-		n := s.nextSer
+		var n int
+		switch kind {
+		case "$":
+			// an accepted update installs a state even if the value is the one already installed
+			n = s.serials[len(s.serials)-1]
+			s.c.Probe("update-installs-equal-state")
+		case "same":
+			n = s.serials[len(s.serials)-1]
+			kind = "(v: %d, x: %d)"
+			s.c.Probe("update-installs-equal-state")
+		default:
+			s.nextSer++
+			n = s.nextSer
+		}
 		src := kind
 		switch strings.Count(kind, "%d") {
 		case 1:
